@@ -227,3 +227,114 @@ def check_C20(tier, seed):
     return finish_probes("C20", tier, seed, t0, proof, failures, tie, cov, widen=widen,
                          assumptions=["rustc macro hygiene for the repeated binder `a` of @flatten (modelled as one binder per expansion step)",
                                       "std Zip / slice::Iter / IterMut semantics (the model's zipChain and Src.items); validated by the probe runs"])
+
+
+# ---------------------------------------------------------------------------------------------- C14
+
+def expected_table_C14(case):
+    """the truth table the property statement asks for (independent of the Lean model): requested traits on the vector and,
+    unless vector-only, on the six other types; soa_attr on exactly its kind; the documented built-ins"""
+    from . import derivegen as dg
+    builtin = {"Vec": {"Default"}, "Slice": {"Default", "Copy", "Clone"}, "SliceMut": {"Default"}, "Ref": {"Copy", "Clone"},
+               "RefMut": set(), "Ptr": {"Copy", "Clone"}, "PtrMut": {"Copy", "Clone"}}
+    rows = []
+    for k in dg.KINDS:
+        have = set(builtin[k])
+        for t in case.traits:
+            if t == "Default": continue
+            if k == "Vec" or t not in ("Clone", "Serialize", "Deserialize"): have.add(t)
+        for kk, t in case.attrs:
+            if kk == k: have.add(t)
+        rows.append("".join("1" if t in have else "0" for t in dg.TABLE_TRAITS))
+    return " ".join(rows) + f" clone_api={1 if 'Clone' in case.traits else 0}"
+
+
+def run_derive_cases(cases, tag):
+    from . import derivegen as dg
+    failures, tie = [], []
+    res = probes.parallel(lambda c: (c,) + probes.build_and_run(f"derive_{tag}_{c.cid}", c.program()), cases)
+    rc, mout, merr = run([MODEL_BIN, "derive"], input="\n".join(c.model_line() for c in cases) + "\n", timeout=600)
+    if rc != 0: raise BuildError(f"soa-model derive failed rc={rc}: {merr[-1000:]}")
+    mlines = mout.splitlines()
+    evaluations, distinct = 0, set()
+    for (c, ok, out, err), ml in zip(res, mlines):
+        prog = c.program()
+        attrs = " ".join(c.directives_src()) or "(no soa attributes)"
+        if not ok and "DONE" not in out:
+            codes = sorted(set(re.findall(r"error\[(E\d+)\]", err))) or ["crash"]
+            first = next((l for l in err.splitlines() if l.startswith("error")), err[:200])
+            failures.append(ProbeFailure(f"C14:compile:{'+'.join(codes)}", f"{attrs}: the generated code does not compile / run: {first}", prog,
+                                         "compiles; truth table as the property states", "rejected " + ",".join(codes)))
+            continue
+        evaluations += 1
+        distinct.add((tuple(c.traits), tuple(c.attrs), c.nested, c.split))
+        t = next((l for l in out.splitlines() if l.startswith("T ")), None)
+        got = t.split(" ", 2)[2] if t else "(no table)"
+        want = expected_table_C14(c)
+        if got != want:
+            # name the first differing cell
+            cell = "?"
+            for ki, (g, w) in enumerate(zip(got.split(" "), want.split(" "))):
+                if g != w:
+                    if g.startswith("clone_api"): cell = f"clone API: {g} (want {w})"
+                    else:
+                        ti = next(i for i, (x, y) in enumerate(zip(g, w)) if x != y)
+                        cell = f"{dg.KINDS[ki]}: {dg.TABLE_TRAITS[ti]} is {'implemented' if g[ti] == '1' else 'NOT implemented'}"
+                    break
+            failures.append(ProbeFailure(f"C14:table:{cell.split(':')[0]}:{cell.split(': ')[1].split(' ')[0] if ': ' in cell else ''}",
+                                         f"{attrs}: {cell}; table (Vec Slice SliceMut Ref RefMut Ptr PtrMut x {','.join(dg.TABLE_TRAITS)}) = {got}, the property asks for {want}",
+                                         prog, want, got, extra={"fail_pattern": r"^(FAIL|T (?!\d+ " + re.escape(want) + r"$))"}))
+        for l in out.splitlines():
+            if l.startswith("FAIL"):
+                failures.append(ProbeFailure(f"C14:behaviour:{l.split()[1]}", f"{attrs}: {l[:300]}", prog, "no FAIL line", l[:300]))
+        if got != ml.strip():
+            tie.append((f"model/implementation disagree on `{attrs}`", {"rustc": got, "model": ml, "request": c.model_line()}))
+    return failures, tie, evaluations, distinct
+
+
+def check_C14(tier, seed):
+    from . import derivegen as dg
+    t0 = time.time()
+    proof = prove("C14", ["Soa.Props.C14"])
+    cases = dg.cases(tier, seed)
+    failures, tie, evaluations, distinct = run_derive_cases(cases, "main")
+    # inherent cloning API: compiles iff Clone was requested
+    api_sets = [[], ["Debug"], ["Clone"], ["Debug", "PartialEq", "Clone"], ["Default"], ["PartialEq", "Eq"]]
+    def api(ts):
+        prog, expect = dg.clone_api_probe(ts)
+        ok, codes, err = probes.check_compile("derive_api_" + "_".join(ts or ["none"]), prog)
+        return ts, prog, expect, ok, codes
+    for ts, prog, expect, ok, codes in probes.parallel(api, api_sets):
+        evaluations += 1
+        if ok != expect:
+            failures.append(ProbeFailure(f"C14:cloneapi:{'present' if ok else 'absent'}", f"soa_derive({', '.join(ts)}): resize/to_vec "
+                                         f"{'compile although Clone was not requested' if ok else 'do not compile although Clone was requested: ' + ','.join(codes)}",
+                                         prog, "compiles" if expect else "rejected", "compiles" if ok else "rejected " + ",".join(codes), replay_kind="compile"))
+    # serde round trip
+    for nested in (False, True):
+        prog = dg.serde_program(nested)
+        ok, out, err = probes.build_and_run(f"derive_serde_{int(nested)}", prog)
+        evaluations += 1
+        if not ok or "DONE" not in out:
+            first = next((l for l in err.splitlines() if l.startswith("error")), err[:200])
+            failures.append(ProbeFailure("C14:serde:compile", f"serde probe (nested={nested}) does not compile / run: {first}", prog, "runs", "rejected"))
+        for l in out.splitlines():
+            if l.startswith("FAIL"):
+                failures.append(ProbeFailure(f"C14:behaviour:{l.split()[1]}", l[:300], prog, "no FAIL line", l[:300]))
+
+    def widen():
+        fs, _, _, _ = run_derive_cases(dg.cases("thorough", seed + 1), "widen")
+        return fs
+    cov = {
+        "evaluations": evaluations, "distinct_nontrivial": len([d for d in distinct if d[0] or d[1]]),
+        "rule": "one evaluation = one probe program (an attribute list on a struct, with or without a nested field) compiled against /repo: the 7 x 9 "
+                "truth table of implemented traits is computed by rustc (inherent-const shadowing) and compared with the table the property states "
+                "and with the Lean model's; Default-emptiness, derived equality vs element-wise equality on 64 pairs, the cloning API and serde round trips run in the probe. "
+                "distinct = distinct attribute lists; non-trivial = at least one trait or attribute requested",
+        "samples": [c.desc() for c in cases[:3]] + [{"model_request": cases[1].model_line()}],
+        "programs": evaluations, "extracted_table_rows": "see Soa/Extracted/Derive.lean (nDeriveCases), checked by C14.table_agrees in the kernel",
+        "traces_validated_against_impl": evaluations, "exhaustive": False,
+    }
+    return finish_probes("C14", tier, seed, t0, proof, failures, tie, cov, widen=widen,
+                         assumptions=["serde's own derive and serde_json are trusted (round trip observed, not proved)",
+                                      "rustc decides which traits a type implements; #[derive(T)] implements T when it compiles"])
